@@ -157,3 +157,40 @@ Example C06_float_mod_witness :
   calculate (VFloat 5) (VInt 3) AMod = Ok (VFloat 2) /\ calculate (VFloat (-5)) (VInt 3) AMod = Ok (VFloat (-2)) /\
   calculate (VInt 5) (VInt 3) AMod = Ok (VInt 2).
 Proof. vm_compute. repeat split. Qed.
+
+Require Import Csvq.Proofs.FloatInt.
+From Coq Require Import Lia.
+From Coq Require Reals.
+From Flocq Require IEEE754.BinarySingleNaN IEEE754.PrimFloat.
+Import Rdefinitions Raxioms.
+(* float and integer arithmetic agree on integral operands: for |a|, |b|, |a op b| < 2^53 the float
+   path (on float64(a), float64(b)) yields a finite float whose real value is exactly the integer
+   path's result a op b, for op in + - *   (binary64 through Flocq; the axioms listed are the
+   standard library's real-number axioms) *)
+Theorem C06_float_and_integer_arithmetic_agree : forall a b,
+  Z.abs a < 2 ^ 53 -> Z.abs b < 2 ^ 53 ->
+  (Z.abs (a + b) < 2 ^ 53 ->
+     calculate (VInt a) (VInt b) APlus = Ok (VInt (a + b)) /\
+     exists f, calculate (VFloat (z2f a)) (VFloat (z2f b)) APlus = Ok (VFloat f) /\
+               BinarySingleNaN.B2R (PrimFloat.Prim2B f) = IZR (a + b) /\ BinarySingleNaN.is_finite (PrimFloat.Prim2B f) = true) /\
+  (Z.abs (a - b) < 2 ^ 53 ->
+     calculate (VInt a) (VInt b) AMinus = Ok (VInt (a - b)) /\
+     exists f, calculate (VFloat (z2f a)) (VFloat (z2f b)) AMinus = Ok (VFloat f) /\
+               BinarySingleNaN.B2R (PrimFloat.Prim2B f) = IZR (a - b) /\ BinarySingleNaN.is_finite (PrimFloat.Prim2B f) = true) /\
+  (Z.abs (a * b) < 2 ^ 53 ->
+     calculate (VInt a) (VInt b) AMul = Ok (VInt (a * b)) /\
+     exists f, calculate (VFloat (z2f a)) (VFloat (z2f b)) AMul = Ok (VFloat f) /\
+               BinarySingleNaN.B2R (PrimFloat.Prim2B f) = IZR (a * b) /\ BinarySingleNaN.is_finite (PrimFloat.Prim2B f) = true).
+Proof.
+  intros a b Ha Hb.
+  assert (W : forall z, Z.abs z < 2 ^ 53 -> wrap64 z = z).
+  { intros z Hz. apply wrap64_id. unfold in_int64, min_int64, max_int64, two63.
+    apply andb_true_intro. split; apply Z.leb_le; lia. }
+  split; [|split]; intros Hr; (split; [unfold calculate; cbn [to_int_strict]; unfold calc_int; rewrite (W _ Hr); reflexivity|]);
+    eexists; (split; [reflexivity|]).
+  - exact (plus_agree a b Ha Hb Hr).
+  - exact (minus_agree a b Ha Hb Hr).
+  - exact (mult_agree a b Ha Hb Hr).
+Qed.
+Print Assumptions C06_float_and_integer_arithmetic_agree.
+
